@@ -52,6 +52,7 @@ TBody ==
     \/ Is("repair") /\ (IF part[LinkHost] # "none" THEN Repair(LinkHost)
                          ELSE P_Repair(Pairs(E.dirs)) /\ UNCHANGED <<mivars, last>>)
     \/ Is("syn_arrive") /\ Same
+    \/ Is("accept_parked") /\ Same
     \/ Is("bind") /\ Bind(E.p, E.kind) /\ last'.res = E.res
     \/ Is("drop_listener") /\ DropListener(E.p)
     \/ Is("connect") /\ Connect(E.c, E.h, E.dp, IF E.dh = 0 THEN "none" ELSE "srv", E.lo) /\ last'.res = E.res
